@@ -186,10 +186,70 @@ def make(trees=TREES, reduced=False, preset_structure=False):
     return fn
 
 
+def scale_fn(g):
+    """More versions / archivable tasks than any batch or worker count."""
+    shape = ("three-tasks-three-versions", "closure-of-34-experiments")[g.choose("shape", 2)]
+    latest = g.flag("latest")
+    named = g.flag("task_named")
+    A = hrun.Project()
+    B = hrun.Project()
+    arch = os.path.join(hrun.SCRATCH_BASE, "arch-%s.tar.gz" % os.path.basename(str(A.root)))
+    try:
+        if shape.startswith("three"):
+            specs = [TaskSpec("x", "run_experiment", [], pkg="exp"), TaskSpec("y", "run_experiment", ["//exp:x"], pkg="exp/inner"),
+                     TaskSpec("m", "run_command", ["//exp/inner:y"], pkg=""), TaskSpec("z", "run_experiment", ["//:m"], pkg="exp/inner/most"),
+                     TaskSpec("all", "group", ["//exp/inner/most:z"], pkg="")]
+            exps = specs[:2] + [specs[3]]
+            nver = 3
+        else:
+            exps = [TaskSpec("i%d" % i, "run_experiment", [], pkg="sweep") for i in range(34)]
+            specs = exps + [TaskSpec("all", "combine", [e.ident for e in exps], pkg="")]
+            nver = 2
+        for P in (A, B):
+            P.write_tasks(specs)
+        rows = []
+        for v in range(nver):
+            for k, e in enumerate(exps):
+                ts = 1000 * (v + 1) + k
+                d = A.add_version(e.ident, ts, files={})
+                tree_plain(d)
+                rows.append((e.ident, ts, None, 0))
+        sel = sorted(rows)
+        if latest:
+            sel = [r for r in sel if r[1] == max(x[1] for x in rows if x[0] == r[0])]
+        argv = ["archive"] + (["//:all"] if named else []) + (["--latest"] if latest else []) + ["-o", arch]
+        D = "%s versions=%d latest=%s task_named=%s" % (shape, len(rows), latest, named)
+        res = hrun.invoke_argv(argv, str(A.root), fakeos.Kernel(fakeos.Sched()), timeout=200)
+        if isinstance(res.status, str):
+            g.require(False, "archive:crash:" + res.status[4:], "%s; %s" % (res.exc, D))
+        g.require(res.status == 0 and os.path.exists(arch), "archive:failed", "status=%r err=%r; %s" % (res.status, res.err[-200:], D))
+        r2 = hrun.invoke_argv(["restore", arch], str(B.root), fakeos.Kernel(fakeos.Sched()), timeout=200)
+        if isinstance(r2.status, str):
+            g.require(False, "restore:crash:" + r2.status[4:], "%s; %s" % (r2.exc, D))
+        g.require(r2.status == 0, "restore:failed", "status=%r err=%r; %s" % (r2.status, r2.err[-200:], D))
+        got = sorted(B.index_rows())
+        g.require(got == sel, "restore:wrong-versions", "restored %d rows, selected %d (missing e.g. %s); %s" % (
+            len(got), len(sel), [(r[0], r[1]) for r in sel if r not in got][:3], D))
+        for ident, ts, _, _ in sel:
+            pkg, nm = ident[2:].rsplit(":", 1)
+            rel = os.path.join(pkg, "%s.task.%d" % (nm, ts))
+            g.require(hrun.tree_digest(A.out / rel) == hrun.tree_digest(B.out / rel) and (B.out / rel).is_dir(), "restore:tree-differs",
+                      "%s missing or different after restore; %s" % (rel, D))
+        g.goal("archive of more than 8 versions")
+        return {"nontrivial": True, "sample": {"case": D, "restored": len(got)}}
+    finally:
+        A.cleanup()
+        B.cleanup()
+        if os.path.exists(arch):
+            os.unlink(arch)
+
+
 def spaces(tier):
     goals = ["nothing to archive", "some versions not selected", "shared dependency in the archived closure",
              "root-level task name with a leading hyphen", "temporary archive index left by a killed archive"]
-    sp = [Space("selection", make(trees=TREES[:1], reduced=True), "as 'two-experiments' below with the plain output tree, the second "
+    sp = [Space("scale-many-versions", scale_fn, "3 experiments in nested packages x 3 versions (9 versions), or a combine over 34 "
+                "experiments x 2 versions (68 versions); --latest bit; task named or not", depth=3, goals=["archive of more than 8 versions"]),
+          Space("selection", make(trees=TREES[:1], reduced=True), "as 'two-experiments' below with the plain output tree, the second "
                 "experiment fixed in package p and commit/dirty in {NULL/clean, hash/dirty}", depth=8, goals=goals, tiers=("quick",)),
           Space("output-trees", make(reduced=True), "fixed structure (//p/q:a and //p:b1, one version each, archive everything) x "
                 "4 output tree kinds (plain incl. read-only file and 0700 dir, in-tree symlinks, dangling symlink, absolute / "
